@@ -335,6 +335,7 @@ func C10(ctx *core.Ctx) {
 		c10IncludeDir(ctx, cc)
 		c10JSONAnnotations(ctx, cc)
 		c10Regexps(ctx, cc)
+		c10SeenSets(ctx, cc)
 	}
 	gs, err := peg.ParseSource(string(src))
 	if err != nil {
